@@ -19,7 +19,7 @@ RULE = ("op sets: 2-3 threads x 1-3 operations from {safe/unsafe register, remov
         "non-trivial = the schedule contains at least one context switch inside an operation")
 ASSUMPTIONS = ["granularity is the source line (CPython may also switch between bytecodes of a line)",
                "for SqlStorage each storage call is atomic for the scheduler (a thread is never parked inside an open sqlite transaction)"]
-REQUIRED_REACH = ["schedules_explored", "histories_linearizable", "concurrent_safe_registers", "concurrent_removes", "sql_schedules"]
+REQUIRED_REACH = ["socket_histories", "schedules_explored", "histories_linearizable", "concurrent_safe_registers", "concurrent_removes", "sql_schedules"]
 SHARD_TIMEOUT = {"quick": 240, "thorough": 3000}
 NSNAME = "Pyro.NameServer"
 URIS = ["PYRO:o1@h:1", "PYRO:o2@h:2", "PYRO:o3@h:3"]
@@ -275,9 +275,103 @@ def explore(P, opset, backend, bound, nrandom, npct, max_runs, rec, r, workdir):
         one(None, ("random", r.getrandbits(32)))
 
 
+def socket_stress(P, rec, r, nhist, inject):
+    """(b) free-running: real name-server daemon (thread pool), 4-8 client threads with a proxy each, few names, yield injection
+    in nameserver.py; every history (<= 24 operations) is checked offline for linearizability"""
+    import itertools
+    import threading
+    from vlib import yieldinj
+    N = P.nameserver
+    P.config.SERVERTYPE = "thread"
+    P.config.POLLTIMEOUT = 0.5
+    P.config.COMMTIMEOUT = 0.0
+    P.config.THREADPOOL_SIZE = 40
+    d = N.NameServerDaemon(host="127.0.0.1", port=0)
+    t = threading.Thread(target=d.requestLoop, daemon=True)
+    t.start()
+    nsuri = d.uriFor(NSNAME)
+    clock = itertools.count(1)
+    clock_lock = threading.Lock()
+
+    def now():
+        with clock_lock:
+            return next(clock)
+    if inject:
+        yieldinj.enable(("Pyro5/nameserver.py",), 0.15, r.getrandbits(30), max_sleep=0.002)
+    try:
+        for h in range(nhist):
+            if rec.should_stop(6):
+                break
+            with P.client.Proxy(nsuri) as ns0:
+                ns0.remove(prefix="a.")
+                initial = []
+                if r.random() < 0.6:
+                    ns0.register("a.x", URIS[0], metadata={"m0"})
+                    initial.append(("a.x", URIS[0], frozenset(["m0"])))
+                if r.random() < 0.4:
+                    ns0.register("a.y", URIS[0], metadata={"m0"})
+                    initial.append(("a.y", URIS[0], frozenset(["m0"])))
+            nthreads = r.randrange(4, 9)
+            opset = gen_opset(r, nthreads)
+            opset["threads"] = [ops[:3] for ops in opset["threads"]]
+            opset["initial"] = tuple(sorted(initial))
+            history = []
+            hlock = threading.Lock()
+            barrier = threading.Barrier(nthreads)
+            errs = []
+
+            def client(ti):
+                try:
+                    with P.client.Proxy(nsuri) as ns:
+                        ns._pyroBind()
+                        barrier.wait(10)
+                        for oi, (op, args) in enumerate(opset["threads"][ti]):
+                            hh = {"id": (ti, oi), "op": op, "args": args, "call": now(), "ret": None, "result": None}
+                            with hlock:
+                                history.append(hh)
+                            res = do_op(ns, op, args)
+                            if op in ("list", "listp", "listm"):
+                                # only the shared names (the daemon's own entry is part of every listing)
+                                res = tuple(x for x in res if x[0] != NSNAME) if isinstance(res, tuple) and (not res or isinstance(res[0], tuple)) else res
+                            if op == "count" and isinstance(res, int):
+                                res -= 1
+                            hh["result"] = res
+                            hh["ret"] = now()
+                except Exception as x:
+                    errs.append(x)
+            ts = [threading.Thread(target=client, args=(i,), daemon=True) for i in range(nthreads)]
+            for th in ts:
+                th.start()
+            for th in ts:
+                th.join(60)
+            if errs or any(th.is_alive() for th in ts):
+                rec.inconc("socket-level history did not complete: %r" % (errs[:1],))
+                continue
+            with P.client.Proxy(nsuri) as ns0:
+                final = tuple(x for x in do_op(ns0, "listm", ("",)) if x[0] != NSNAME)
+            pay = {"opset": opset, "backend": "daemon", "choices": None, "history": [(hh["id"], hh["op"], hh["args"], hh["call"], hh["ret"], hh["result"]) for hh in history]}
+            rec.case(("sock", core.h64(repr(pay["history"]))), nontrivial=True,
+                     sample={"socket_history": [(str(hh["id"]), hh["op"], hh["call"], hh["ret"]) for hh in history[:8]], "threads": nthreads} if rec.evaluations % 40 == 1 else None)
+            rec.count("socket_histories")
+
+            class R:
+                timeout = steps_exceeded = deadlock = False
+                errors = []
+                blocked = []
+            judge(opset, "daemon", R, history, final, rec, pay)
+    finally:
+        if inject:
+            n, lines = yieldinj.disable()
+            rec.count("injected_yields", n)
+        d.shutdown()
+        t.join(5)
+
+
 def plan(tier, seed):
     shards = []
     n = 12 if tier == "quick" else 32
+    for i in range(2 if tier == "quick" else 8):
+        shards.append({"i": 200 + i, "backend": "daemon", "histories": 25 if tier == "quick" else 300, "inject": i % 2 == 0})
     for i in range(n):
         shards.append({"i": i, "nshards": n, "backend": "memory", "opsets": 5 if tier == "quick" else 40, "bound": 1 if tier == "quick" else 2,
                        "max_runs": 120 if tier == "quick" else 3000, "nrandom": 15 if tier == "quick" else 300, "npct": 10 if tier == "quick" else 150})
@@ -292,6 +386,13 @@ def run_shard(shard, rec):
     import Pyro5.nameserver
     P.nameserver = Pyro5.nameserver
     r = gen.rng(rec.seed, "c15", shard["i"])
+    if shard["backend"] == "daemon":
+        for k in REQUIRED_REACH:
+            if k != "socket_histories":
+                rec.count(k)
+        socket_stress(P, rec, r, shard["histories"], shard["inject"])
+        return
+    rec.count("socket_histories")
     workdir = tempfile.mkdtemp(prefix="c15-", dir=os.path.join(core.VERIF, ".work"))
     try:
         if shard["backend"] == "memory":
